@@ -47,3 +47,9 @@ reg("C23", "model_checking",
     "For generated recursive programs and every small EDB the unlimited model comes from TLC; the real interpreter is run with the limit k in {0,1,2,|M|-1,|M|,|M|+1} on "
     "each recursive relation and TLC evaluates the property's three clauses (subset; equal when |M|<k; at least k tuples otherwise) on the real output.",
     EVAL_NOTE + " Only the limited relation itself is judged.", "DESIGN.md 9 C23")
+reg("C22", "model_checking",
+    "TLC checks spec/AutoInc.tla (atomic fetch-and-add vs split load/store as vacuity witness) over all interleavings; real parallel runs are judged by TLC: projection = model of the program without the autoinc column, autoinc column pairwise distinct",
+    "S: uniqueness of handed-out values for 3 workers x 3 uses under every interleaving of the atomic counter; the split variant is required to violate it. "
+    "R: generated programs deriving thousands of tuples with autoinc() in parallelisable rules run in the interpreter and compiled at -j1..16 with seeded perturbation; "
+    "TLC computes the model of the program without the counter column and judges the counter column of every real run with the uniqueness predicate.",
+    EVAL_NOTE + " OpenMP schedules are perturbed, not enumerated.", "DESIGN.md 9 C22")
